@@ -2,7 +2,7 @@
 sequence-counter effects per return path.  Shared by C01, C04, C05, C06."""
 from ..bits import bits, be_byte_ok, WIDTH
 from ..mirjson import callee_of
-from ..prov import get_an, pp, strip_generics, contains, walk, bytes_of
+from ..prov import get_an, pp, strip_generics, contains, walk, bytes_of, fold_bin
 from .common import (bodies_calling, adt_field_stores, adt_field_mut_borrows, aggregates_of, ret_classes,
                      is_ok_agg, is_err_agg, hpke_variant, enumerate_paths, switch_on, switch_edge,
                      uses_of_local_blocks, addr_fields, load_path_fields, where, closure_ret, site_reaches)
@@ -134,6 +134,8 @@ def check_be_encoder(rep, facts, key, nbytes, rule):
             continue
         idx = path[0][1]
         if idx[0] != 'const' or not isinstance(idx[2], int):
+            if len(a.deref_stores) == 1 and _payload_path(idx)[1] is not None:
+                continue            # buf[position of a loop]: decided by the loop form below
             rep.undecided(rule, fn, 'store-index', pp(idx), 'constant index', where(a, site))
             okall = False
             continue
@@ -161,6 +163,8 @@ def check_be_encoder(rep, facts, key, nbytes, rule):
             if dst == ('param', 1) and src[0] == 'call' and src[1].endswith('::to_be_bytes') and src[2] == (('param', 2),):
                 alt = True
                 rep.ok(rule, fn, 'to_be_bytes', 'buf.copy_from_slice(&n.to_be_bytes())')
+        if not alt and _loop_encoder(rep, facts, a, nbytes, rule, inputs):
+            return True
         if not alt:
             rep.undecided(rule, fn, 'no-stores', 'no recognised byte stores', 'N indexed stores or copy_from_slice(to_be_bytes)', where(a))
             return False
@@ -179,6 +183,97 @@ def check_be_encoder(rep, facts, key, nbytes, rule):
                 others.append(c['path'] if c else '?')
     rep.check(not others, rule, fn, 'no-other-writer', 'calls receiving &mut: %s' % others, 'none', where(a))
     return okall and not missing and not extra and not others
+
+
+def _subst_loop_index(t, nx_site, lay, k):
+    """the term t with the loop's position (the `index` payload of the next() at nx_site) replaced by the constant k, refolded"""
+    if not isinstance(t, tuple) or not t:
+        return t
+    if t[0] == 'field':
+        pth, nx = _payload_path(t)
+        if nx is not None and nx[3] == nx_site and lay.get(pth) == ('index',):
+            return ('const', 'usize', k)
+    new = tuple(_subst_loop_index(x, nx_site, lay, k) for x in t)
+    if new[0] == 'bin' and len(new) == 4 and isinstance(new[2], tuple) and isinstance(new[3], tuple):
+        return fold_bin(new[1], new[2], new[3])
+    if new[0] == 'cast' and len(new) == 4 and new[1] == 'IntToInt' and isinstance(new[3], tuple) and new[3][0] == 'const' \
+            and isinstance(new[3][2], int) and not isinstance(new[3][2], bool) and new[2] in WIDTH and new[3][2] >= 0:
+        return ('const', new[2], new[3][2] & ((1 << WIDTH[new[2]]) - 1))
+    return new
+
+
+def _loop_encoder(rep, facts, a, nbytes, rule, inputs):
+    """the encoder written as ONE loop over the whole output buffer: `for (i, b) in buf.iter_mut().enumerate() { *b = f(n, i) }`
+    or `for i in 0..buf.len() { buf[i] = f(n, i) }`, after `assert_eq!(buf.len(), N)`.  The loop is decided by evaluating f at
+    every position 0..N (the position substituted and folded, then the same bit-provenance test as for straight-line stores).
+    Returns True when every obligation held, None when the shape is another one (the caller reports it)."""
+    from .common import explicit_len_guard
+    fn = a.body.key
+    stores = []
+    for site, pl in a.deref_stores:
+        base, path = a.place_desc(pl, site)
+        stores.append((site, pl, base, path))
+    if len(stores) != 1:
+        return None
+    site, pl, base, path = stores[0]
+    st = a.stmt_at(site)
+    if st.get('k') != 'assign':
+        return None
+    # where the store goes: the element handed out by the iterator, or buf[position]
+    if pl['p'] == ['deref'] and pl['l'] != 1:
+        pth, nx = _payload_path(a.val_local(pl['l'], site))
+        lay = _iter_layout(a, nx) if nx is not None else None
+        if lay is None or lay[0].get(pth) != ('elem', ('param', 1)):
+            return None
+    elif base == ('pointee', ('param', 1)) and len(path) == 1 and path[0][0] == 'i':
+        pth, nx = _payload_path(path[0][1])
+        lay = _iter_layout(a, nx) if nx is not None else None
+        if lay is None or lay[0].get(pth) != ('index',):
+            return None
+    else:
+        return None
+    layout, drivers = lay
+    nsite = nx[3]
+    ok = True
+    # the loop runs over the whole buffer, whose length is asserted to be exactly N before the loop
+    whole = bool(drivers) and all(d == ('param', 1) for d in drivers)
+    g = explicit_len_guard(a, facts, 1)
+    asserted = g is not None and g['n'] == ('const', 'usize', nbytes) and not g['ne_returns'] and \
+        all(a.cfg.edge_dominates(g['eq_edge'][0], g['eq_edge'][1], r) for r in a.cfg.returns) and \
+        a.cfg.edge_dominates(g['eq_edge'][0], g['eq_edge'][1], nsite)
+    rep.check(whole and asserted, rule, fn, 'loop-length', 'loop over %s; assert len == %s' % ([pp(d) for d in drivers], pp(g['n']) if g else None),
+              'one loop over the whole of buf, after assert_eq!(buf.len(), %d)' % nbytes, where(a, site))
+    ok = ok and whole and asserted
+    # every iteration stores, and the only way out of the loop is the iterator running dry
+    sw = [b2 for b2 in a.cfg.reach if a.body.blocks[b2]['term']['k'] == 'switch'
+          and (lambda d: d[0] == 'discr' and d[1][0] == 'call' and d[1][3] == nsite)(a.val_op(a.body.blocks[b2]['term']['discr'], a.term_point(b2)))]
+    shape = False
+    if len(sw) == 1:
+        t2 = a.body.blocks[sw[0]]['term']
+        none_t, some_t = switch_edge(t2, 0), switch_edge(t2, 1)
+        backs = [u for (u, v) in a.cfg.back_edges() if a.cfg.dominates(v, nsite) or v == nsite]
+        shape = none_t != some_t and all(a.cfg.edge_dominates(sw[0], none_t, r) for r in a.cfg.returns) and \
+            a.cfg.edge_dominates(sw[0], some_t, site[0]) and bool(backs) and all(a.cfg.dominates(site[0], u) for u in backs)
+    rep.check(shape, rule, fn, 'loop-shape', 'exit only when next() is None: %s' % shape,
+              'the store executes in every iteration and the loop ends only when the buffer is exhausted', where(a, site))
+    ok = ok and shape
+    v = a.val_rv(st['rv'], site)
+    for k in range(nbytes):
+        vk = _subst_loop_index(v, nsite, layout, k)
+        bs = bits(vk, inputs)
+        good = be_byte_ok(bs, 'n', nbytes, k)
+        rep.check(good, rule, fn, 'byte[%d]' % k, 'buf[%d] = %s ; bits=%s' % (k, pp(vk), _bits_s(bs)),
+                  'buf[%d] = bits [%d..%d) of n (big-endian byte %d of %d)' % (k, 8 * (nbytes - 1 - k), 8 * (nbytes - k), k, nbytes), where(a, site))
+        ok = ok and good
+    others = []
+    for bi, t, c in a.calls():
+        if c and c['name'] in ('deref_mut', 'index_mut', 'len', 'assert_failed', 'iter_mut', 'enumerate', 'into_iter', 'next'):
+            continue
+        for x, ty in zip(t['args'], t['arg_tys']):
+            if '&mut' in ty:
+                others.append(c['path'] if c else '?')
+    rep.check(not others, rule, fn, 'no-other-writer', 'calls receiving &mut: %s' % others, 'none', where(a))
+    return ok and not others
 
 
 def _bits_s(bs):
